@@ -88,10 +88,19 @@ class Lock:
 
 # ----------------------------------------------------------------------------------------------- SimGrid build
 
+_SG_LOCK = None
+
+
 def build_simgrid(targets=None):
-    """(Re)build /repo's working tree with hooks on in build/sg. Incremental; serialised by a lock."""
+    """(Re)build /repo's working tree with hooks on in build/sg. Incremental.  The build runs under an exclusive lock;
+    afterwards this process keeps a SHARED lock until it exits, so nobody relinks libsimgrid under a running check."""
+    global _SG_LOCK
     targets = targets or SG_TARGETS
-    with Lock("sg"):
+    os.makedirs(B, exist_ok=True)
+    if _SG_LOCK is None:
+        _SG_LOCK = open(os.path.join(B, "sg.lock"), "w")
+    fcntl.flock(_SG_LOCK, fcntl.LOCK_EX)
+    try:
         if not os.path.exists(os.path.join(SG, "build.ninja")):
             os.makedirs(SG, exist_ok=True)
             sh(["cmake", "-S", REPO, "-B", SG] + CMAKE_ARGS, check=True, timeout=600)
@@ -102,6 +111,8 @@ def build_simgrid(targets=None):
             rc, out = sh(["ninja", "-C", SG] + targets, timeout=3600)
         if rc != 0:
             raise BuildError("simgrid does not build:\n" + out[-6000:])
+    finally:
+        fcntl.flock(_SG_LOCK, fcntl.LOCK_SH)
     return True
 
 
